@@ -124,7 +124,7 @@ PROPS = {
     "C26": {
         "level": "proof",
         "verus": ["execution", "collect_fields", "selection_set", "arguments", "argument_object", "complete_list", "complete_value"],
-        "explanation": "KERNELS (selection collection, list completion, ExecuteField, null propagation, error paths). Unit collect_fields: Verus proves that the executor's collect_fields computes the spec's CollectFields -- for every schema, document (fragments may even be cyclic), variables map, "
+        "explanation": "The executor's recursive core, function by function (ExecuteSelectionSet, CollectFields, ExecuteField, CoerceArgumentValues, CompleteValue for leaves / lists / objects of abstract types, null propagation, error paths), each unit assuming exactly the clause text its neighbour proves. Unit collect_fields: Verus proves that the executor's collect_fields computes the spec's CollectFields -- for every schema, document (fragments may even be cyclic), variables map, "
                        "object type and selection set, with visitedFragments / groupedFields threaded through as in the spec: @skip / @include, response keys (alias else name) grouped in order of first appearance, each named fragment expanded at most once and only if it exists and "
                        "DoesFragmentTypeApply, inline fragments unless their type condition does not apply. The specification function carries a fuel for fragment expansion; the contract holds for EVERY fuel >= the number of defined-but-unvisited fragments "
                        "(each expansion marks one more fragment visited, so such fuel cannot run out: no acyclicity assumption). Unit execution: Verus proves, for every schema / selection / variables map, three decision functions of the executor against the specification text: "
@@ -157,7 +157,8 @@ PROPS = {
         "not_decided": ["the rest of the main clause: the list case of coerce_argument_value, graphql_value_to_json (scalar / enum literals, default values), coerce_variable_values (decided under C28), the root (data == null exactly when a null reaches it), "
                         "what an error message says, what the result is when the resolver's iterator itself fails for an item of nullable type",
                         "termination of collect_fields' recursion (exec_allows_no_decreases_clause; it follows from the counting argument of the contract but is not checked)",
-                        "that the executor calls these three functions in the right places (call sites are async code, not extracted)"],
+                        "that the units' specifications compose into ONE reference executor (each call of a neighbouring function is named by an uninterpreted function of its arguments, not unfolded); the resolver objects; Execution::execute_* (operation lookup, root type, `data = result.ok()`)",
+                        "argument_object / arguments: the list case of literal coercion and graphql_value_to_json are opaque; what `some key is not a field of the type` means below the shim"],
     },
     "C28": {
         "level": "proof",
